@@ -2432,6 +2432,11 @@ def root_local(fn, op, max_steps=12):
             src = rv["place"]
         elif rv["k"] == "agg" and rv.get("array") and len(rv["ops"]) == 1 and rv["ops"][0]["k"] in ("copy", "move"):
             src = rv["ops"][0]
+        elif rv["k"] == "agg" and rv.get("tuple") and flds and re.fullmatch(r"\.\d+", flds[0]) and int(flds[0][1:]) < len(rv["ops"]) \
+                and rv["ops"][int(flds[0][1:])]["k"] in ("copy", "move"):
+            # the argument tuple of a spliced-in closure call: `(a, b).0` is `a`
+            src = rv["ops"][int(flds[0][1:])]
+            flds = flds[1:]
         else:
             break
         flds = list(fields_of(src["p"])) + flds
